@@ -621,10 +621,12 @@ class ListItem(BlockToken):
         # first line
         line = next(lines)
         start_line = lines.line_number()
+        content_start_line = start_line
         next_line = lines.peek()
         indentation, prepend, leader, content = prev_marker if prev_marker else cls.parse_marker(line)
         if content.strip() == '':
             # item starting with a blank line: look for the next non-blank line
+            content_start_line = start_line + 1
             prepend = indentation + len(leader) + 1
             blanks = 1
             while next_line is not None and next_line.strip() == '':
@@ -683,7 +685,7 @@ class ListItem(BlockToken):
 
         # block-level tokens are parsed here, so that footnotes can be
         # recognized before span-level parsing.
-        parse_buffer = tokenizer.tokenize_block(line_buffer, _token_types, start_line=start_line)
+        parse_buffer = tokenizer.tokenize_block(line_buffer, _token_types, start_line=content_start_line)
         return (parse_buffer, indentation, prepend, leader, start_line), next_marker
 
 
